@@ -174,6 +174,58 @@ Theorem c12_reads_safe_after_any_ops : forall v ops rops,
 Proof. exact reads_safe_after_any_ops_lemma. Qed.
 Print Assumptions c12_reads_safe_after_any_ops.
 
+(* ... and in any alternation: segments of stream operations and segments of typed read
+   calls in turn, any number of them, on one stream starting empty (read, Tidy, write more,
+   Seek back, read again, Reset, ...).  brg_phases_safe: every stream-op segment runs without
+   panic, its trace is C13's clean trace, and leaves 0 <= Position() <= Len(); every read
+   segment is safe in the sense above (oct_reads_safe, brg_fixed_fail_nothing) on the state
+   the previous segment left, leaves the buffer unchanged and the cursor monotone within
+   [Position(), Len()], and Bytes() afterwards is exactly the unread rest.  This is the
+   function the correspondence check compares with the real code (c12s cases). *)
+Theorem c12_reads_safe_in_any_alternation : forall v segs,
+  forallb brg_seg_ok segs = true ->
+  brg_phases_safe v stm_init segs (brg_phases StmFixed v stm_init segs).
+Proof. exact alternation_safe_lemma. Qed.
+Print Assumptions c12_reads_safe_in_any_alternation.
+
+(* from any state inside its data, not only the empty stream *)
+Theorem c12_reads_safe_in_any_alternation_from : forall v segs s,
+  0 <= st_pos s <= stm_len s -> forallb brg_seg_ok segs = true ->
+  brg_phases_safe v s segs (brg_phases StmFixed v s segs).
+Proof. exact phases_safe_lemma. Qed.
+Print Assumptions c12_reads_safe_in_any_alternation_from.
+
+(* the predicate, unfolded once (so that the statement above can be read here) *)
+Theorem c12_alternation_safe_unfold : forall v s,
+  (forall ops tl t obs,
+     brg_phases_safe v s (BrgOps ops :: tl) (BrgOpsObs t :: obs) <->
+     exists s1 rs,
+       stm_run StmFixed s ops = Ok (s1, rs) /\ length rs = length ops /\
+       t = stm_trace StmFixed s ops /\ forallb stm_line_clean t = true /\ length t = length ops /\
+       0 <= st_pos s1 <= stm_len s1 /\ brg_phases_safe v s1 tl obs) /\
+  (forall rops tl rs b obs,
+     brg_phases_safe v s (BrgReads rops :: tl) (BrgReadsObs rs b :: obs) <->
+     brg_rel s (brg_oct s) /\ rs = oct_run_reads v rops (brg_oct s) /\
+     oct_reads_safe v (brg_oct s) rs /\ brg_fixed_fail_nothing rops (brg_oct s) rs /\
+     oct_buf (brg_after_reads (brg_oct s) rs) = oct_buf (brg_oct s) /\
+     oct_position (brg_oct s) <= oct_position (brg_after_reads (brg_oct s) rs) <= oct_len (brg_oct s) /\
+     b = Ok (oct_rest (brg_after_reads (brg_oct s) rs)) /\
+     brg_phases_safe v (brg_stm (brg_after_reads (brg_oct s) rs)) tl obs) /\
+  (brg_phases_safe v s [] [] <-> True).
+Proof. exact (fun v s => conj (fun ops tl t obs => iff_refl _) (conj (fun rops tl rs b obs => iff_refl _) (iff_refl _))). Qed.
+Print Assumptions c12_alternation_safe_unfold.
+
+(* the two-segment alternation is brg_case *)
+Theorem c12_alternation_two_is_case : forall sv v ops rops,
+  brg_phases sv v stm_init [BrgOps ops; BrgReads rops] =
+  BrgOpsObs (fst (brg_case sv v ops rops)) ::
+  match snd (brg_trace sv stm_init ops), snd (brg_case sv v ops rops) with
+  | Some s, Some rs => [BrgReadsObs rs (stm_bytes (brg_stm (brg_after_reads (brg_oct s) rs)))]
+  | _, _ => []
+  end.
+Proof. exact phases_two. Qed.
+Print Assumptions c12_alternation_two_is_case.
+
 (* neither Seek variant ever stores a negative position: every reachable StreamOps state
    has an Octets counterpart *)
 Theorem c12_stream_position_never_negative : forall sv ops s rs,
@@ -214,6 +266,21 @@ Example c12s_nonvacuous :
          (Err OctErrNotEnoughData, oct_mk [2; 65; 66; 7; 1] 5, 0);
          (Err OctErrNotEnoughData, oct_mk [2; 65; 66; 7; 1] 5, 0)]).
 Proof. exact c12s_example. Qed.
+
+(* non-vacuity of the alternation: length-prefixed read, Tidy + more data + seeks, reads,
+   Reset + new data, reads *)
+Example c12s_alternation_nonvacuous :
+  brg_phases StmFixed OctFixed stm_init
+    [BrgOps [SWrite [2; 65; 66; 7; 1]; SSeek 9 0]; BrgReads [OpBytes];
+     BrgOps [STidy; SWrite [3]; SSeek (-1) 1; SSeek 1 1]; BrgReads [OpInt16 OctViaReader; OpInt32 OctViaStream];
+     BrgOps [SReset; SWrite [1; 88]]; BrgReads [OpString; OpByte OctViaStream]] =
+  [BrgOpsObs (stm_trace StmFixed stm_init [SWrite [2; 65; 66; 7; 1]; SSeek 9 0]);
+   BrgReadsObs [(Ok (OVBytes [65; 66]), oct_mk [2; 65; 66; 7; 1] 3, 2)] (Ok [7; 1]);
+   BrgOpsObs (stm_trace StmFixed (mk_stm [2; 65; 66; 7; 1] 3) [STidy; SWrite [3]; SSeek (-1) 1; SSeek 1 1]);
+   BrgReadsObs [(Ok (OVInt16 769), oct_mk [7; 1; 3] 3, 0); (Err OctErrNotEnoughData, oct_mk [7; 1; 3] 3, 0)] (Ok []);
+   BrgOpsObs (stm_trace StmFixed (mk_stm [7; 1; 3] 3) [SReset; SWrite [1; 88]]);
+   BrgReadsObs [(Ok (OVString [88]), oct_mk [1; 88] 2, 1); (Err OctErrNotEnoughData, oct_mk [1; 88] 2, 0)] (Ok [])].
+Proof. exact c12s_alternation_example. Qed.
 
 (* non-vacuity: an over-long 7-bit run, a length prefix larger than the rest, a truncated
    int16, then the last byte *)
